@@ -297,7 +297,7 @@ def run(ctx):
         vectors, grown, pl = [f.result() for f in futs][2:5]
         real_code(ctx, quick, vectors, grown, pl, ntraces)
         if late:
-            late.result()
+            ctx.cov["pair_space_model_checked_states"] = late.result().distinct
 
 
 def real_code(ctx, quick, vectors, grown, pl, ntraces):
@@ -374,6 +374,21 @@ def real_code(ctx, quick, vectors, grown, pl, ntraces):
                           {"vector": v, "binding": bind, "observed": o, "events": events[sid]})
         if not probs and ctx.cov["evaluations"] % 600 == 1:
             ctx.sample({"table": t, "outcome": out, "observed": {k: o[k] for k in ("status", "goaerr", "bodyname", "cname", "ckind", "writes")}})
+    # binding: a corrupted prediction (status / goa-error header / client error of a multi-error table) must be refused
+    if ctx.selftest or not quick:
+        import copy
+        probe = next(((v, bind, sid) for sid, (v, bind) in meta.items() if v["outcome"]["kind"] == "declared" and len(v["table"]) > 1 and
+                      not compare(v, observe(v, events[sid], bind))), None)
+        if probe is None:
+            raise core.Infra("self-test: no accepted declared-error case of a multi-error table to corrupt")
+        v, bind, sid = probe
+        other = next(e["name"] for e in v["table"] if e["name"] != v["outcome"]["name"])
+        for field, val in (("status", DECOY), ("goaerr", other), ("cname", other)):
+            bad = copy.deepcopy(v)
+            bad["pred"][field] = val
+            if not compare(bad, observe(bad, events[sid], bind)):
+                raise core.Infra("self-test: prediction with a corrupted %s was accepted" % field)
+        ctx.cov["selftest"] = "3 corrupted predictions refused"
     ctx.cov["distinct_nontrivial"] = len(nontrivial)
     ctx.cov["designs"] = len(designs)
     ctx.cov["evaluations_per_space"] = per_space
